@@ -32,6 +32,7 @@ from ..termflow import (
     Poly,
     _const_of_key,
     _is_polykey,
+    equivalent,
     g_and,
     key_atom,
     make_cond,
@@ -111,14 +112,19 @@ def is_ellipsis(k):
     return A(k) == ("const", "Ellipsis")
 
 
+def _is_slice(k):
+    a = A(k)
+    return a is not None and a[0] in ("slice", "tuple")
+
+
 def row_index(idxk):
     """(row key, 'row'|'col') for an index that selects one line of a 2-D array, else None."""
     a = A(idxk)
     if a is not None and a[0] == "tuple":
         items = a[1:]
-        if len(items) == 2 and (is_full_slice(items[1]) or is_ellipsis(items[1])) and A(items[0]) is not None and A(items[0])[0] != "slice":
+        if len(items) == 2 and (is_full_slice(items[1]) or is_ellipsis(items[1])) and not _is_slice(items[0]):
             return items[0], "row"
-        if len(items) == 2 and (is_full_slice(items[0]) or is_ellipsis(items[0])) and A(items[1]) is not None and A(items[1])[0] != "slice":
+        if len(items) == 2 and (is_full_slice(items[0]) or is_ellipsis(items[0])) and not _is_slice(items[1]):
             return items[1], "col"
         return None
     if a is not None and a[0] == "slice":
@@ -234,7 +240,7 @@ _N1_OPTS = dict(inline=["compute_log_S"], no_inline=["compute_log_D", "_sub_comp
 
 def rule_N1(ctx):
     prog = ctx.prog
-    ctx.rule("N1", "node combine: log_r := copy of log_p without children, log_p + compute_log_S(children) otherwise; log_p is left intact", 2)
+    ctx.rule("N1", "node combine: log_r := copy of log_p without children, log_p + compute_log_S(children) otherwise; log_p is left intact", 6)
     f = prog.fn("TreeNode.update_node_from_child_r_vals")
     if len(f.params) != 2:
         unrec("%s no longer takes (self, child values)" % f.qualname)
@@ -314,7 +320,7 @@ def _content_of(content, v):
 # ----------------------------------------------------------------------------------------- N2
 def rule_N2(ctx):
     prog = ctx.prog
-    ctx.rule("N2", "running sum: np.logaddexp.accumulate along the grid axis of every sample row (same row on source and destination)", 3)
+    ctx.rule("N2", "running sum: np.logaddexp.accumulate along the grid axis of every sample row (same row on source and destination)", 4)
     f = prog.fn("tree.utils._sub_compute_S")
     if len(f.params) != 1:
         unrec("%s no longer takes one array" % f.qualname)
@@ -368,7 +374,7 @@ def rule_N2(ctx):
         ra = A(si[0])
         if ra is None or ra[0] != "elem":
             unrec("%s: row index %s is not a loop variable" % (f.qualname, show_key(si[0])))
-        doms.add(ra[1] if not isinstance(ra[1], tuple) or not _is_polykey(ra[1]) else ra[1])
+        doms.add(ra[1])
     ctx.check(bad is None, "N2", f.qualname + ": accumulate runs along the grid axis, source row i -> destination row i", f.where(acc[0].node), bad or "", construct=f.qualname, stmt="accumulate rows")
     # every row
     if vectorised:
@@ -442,7 +448,7 @@ def _fold_leaves(k, conv_names, leaf):
 
 def rule_N3(ctx):
     prog = ctx.prog
-    ctx.rule("N3", "the convolution fold covers every child exactly once (0 -> neutral, 1 -> that child, n>=2 -> all of them), and S is its running sum", 6)
+    ctx.rule("N3", "the convolution fold covers every child exactly once (0 -> neutral, 1 -> that child, n>=2 -> all of them), and S is its running sum", 7)
     fS = prog.fn("tree.utils.compute_log_S")
     fD = prog.fn("tree.utils.compute_log_D")
     disp = prog.fn("tree.utils._convolve_two_children")
@@ -455,19 +461,21 @@ def rule_N3(ctx):
             return int(a[1][1:])
         return None
 
+    concrete_ok = True
     for n in range(0, 6):
         ex = extract(prog, fS, args=[_children(n)], inline=[fD.name], no_inline=no_inline)
         label = "%s with %d child(ren)" % (fS.qualname, n)
         r = ex.result
         if n == 0:
             ok = isinstance(r, Poly) and r.is_const() and r.const_value() == 0
-            ctx.check(ok, "N3", label + ": neutral element", fS.where(), "without children log S must be 0 (S = 1 at every grid point); the code gives %s" % show(r), construct=fS.qualname, stmt="0 children")
+            concrete_ok &= ctx.check(ok, "N3", label + ": neutral element", fS.where(), "without children log S must be 0 (S = 1 at every grid point); the code gives %s" % show(r), construct=fS.qualname, stmt="0 children")
             continue
         a = A(r)
         if a is None or a[0] != "call" or a[1] != "_sub_compute_S" or len(a[2]) != 1:
             # S is not the running sum of D
             if a is not None and (a[0] == "v" or (a[0] == "call" and a[1] in conv_names)):
                 ctx.fail("N3", label + ": S is the running sum of the fold", fS.where(), "compute_log_S returns %s: the cumulative sum over the grid (_sub_compute_S) is missing" % show(r), construct=fS.qualname, stmt="%d children" % n)
+                concrete_ok = False
                 continue
             unrec("%s returns %s for %d children" % (fS.qualname, show(r), n))
         leaves = _fold_leaves(a[2][0], conv_names, child)
@@ -475,7 +483,18 @@ def rule_N3(ctx):
         missing = sorted(set(range(n)) - set(leaves))
         rep = sorted({x for x in leaves if leaves.count(x) > 1})
         why = "with %d children the fold uses children %s: missing %s, repeated %s" % (n, leaves, missing or "none", rep or "none")
-        ctx.check(ok, "N3", label + ": every child enters the fold exactly once", fD.where(), why, construct=fD.qualname, stmt="%d children" % n)
+        concrete_ok &= ctx.check(ok, "N3", label + ": every child enters the fold exactly once", fD.where(), why, construct=fD.qualname, stmt="%d children" % n)
+    ctx.analysed(fS, fD)
+    try:
+        _fold_any_n(ctx, prog, fD, conv_names)
+    except AnalysisError as e:
+        if concrete_ok:
+            raise
+        # the fold is already wrong for a concrete number of children: its loop need not have a recognisable shape
+        ctx.fail("N3", fD.qualname + ": for any n the loop folds all remaining children", fD.where(), "the fold is wrong for a concrete number of children (above) and its loop is not a fold over all remaining children (%s)" % e, construct=fD.qualname, stmt="fold loop")
+
+
+def _fold_any_n(ctx, prog, fD, conv_names):
     # general n: the loop of the fold ranges over all remaining children
     ex = extract(prog, fD, no_inline=sorted(conv_names))
     a = A(ex.result)
@@ -516,7 +535,6 @@ def rule_N3(ctx):
         else:
             unrec("%s: loop bound %s" % (fD.qualname, show_key(rg[1])))
     ctx.check(ok, "N3", fD.qualname + ": for any n the loop folds children %d..n-1 after 0..%d" % (m, m - 1), fD.where(), why, construct=fD.qualname, stmt="fold loop")
-    ctx.analysed(fS, fD)
 
 
 def _backend_names(prog, disp):
@@ -916,7 +934,7 @@ HOOKS = ("discover_vertex", "finish_vertex", "tree_edge", "back_edge", "forward_
 
 def rule_N5(ctx):
     prog = ctx.prog
-    ctx.rule("N5", "bottom-up order: full refresh in DFS finish order from the virtual root; path refresh walks the root->source path reversed, both ends included", 5)
+    ctx.rule("N5", "bottom-up order: full refresh in DFS finish order from the virtual root; path refresh walks the root->source path reversed, both ends included", 6)
     f = prog.fn("Tree.update")
     ex = extract(prog, f)
     dfs = ex.calls("rustworkx.dfs_search")
@@ -979,6 +997,8 @@ def rule_N5(ctx):
         if len(e.args) != 1 or vkey(e.recv) != Pk(0):
             unrec("%s: _update_node call %s" % (pf.qualname, [show(a) for a in e.args]))
         el = A(e.args[0])
+        if vkey(e.args[0]) == root_idx and e.guards:
+            continue  # the one-element fallback path [root] iterated directly: order is immaterial
         if el is None or el[0] != "elem":
             unrec("%s: _update_node(%s) outside the path loop" % (pf.qualname, show(e.args[0])))
         dom = A(el[1])
@@ -1000,7 +1020,7 @@ def rule_N5(ctx):
             order_bad = order_bad or "the path is walked root -> source (%s): every ancestor is recombined before the child below it has been refreshed" % show_key(el[1])
         # the path itself
         if pa is not None and pa[0] == "list":
-            if not (len(pa[1]) == 1 and pa[1][0] == root_idx and not pa[2]):
+            if not (len(pa[1]) == 1 and pa[1][0] == root_idx):
                 unrec("%s: fallback path %s" % (pf.qualname, show_key(path)))
             continue
         if pa is None or pa[0] != "sub" or const_int(pa[2]) not in (0, -1):
@@ -1084,7 +1104,7 @@ def _prior_spec_ok(ctx, rule, label, fi, got, grid_term_src, like, what):
 
 def rule_N7(ctx):
     prog = ctx.prog
-    ctx.rule("N7", "uniform grid prior -log(number of grid points) on the full (samples, grid) shape; the virtual root holds the prior only", 14)
+    ctx.rule("N7", "uniform grid prior -log(number of grid points) on the full (samples, grid) shape; the virtual root holds the prior only", 17)
     # Tree.__init__
     f = prog.fn("Tree.__init__")
     ex = extract(prog, f, opaque_self_methods={"_add_node_to_indices"})
@@ -1116,7 +1136,11 @@ def rule_N7(ctx):
             else:
                 return -np.log(tree_dict["grid_size"][1])
         """, fd)
-    same(ctx, "N7", fd.qualname + ": _log_prior = recorded value, else -log(number of grid points)", fd, ex.store("_log_prior"), sp.result, "new._log_prior", stmt="_log_prior")
+    stores = [e for e in ex.events if e.name == "store_attr" and e.kwargs.get("attr") == "_log_prior"]
+    if not stores:
+        unrec("%s never stores _log_prior" % fd.qualname)
+    bad = next((e for e in stores if not _equal_under(e.guards, e.args[1], sp.result)), None)
+    ctx.check(bad is None, "N7", fd.qualname + ": _log_prior = recorded value, else -log(number of grid points)", fd.where(bad.node) if bad else fd.where(), "the restored tree's prior is %s; expected %s" % (show(bad.args[1]) if bad else "", show(sp.result)), construct=fd.qualname, stmt="_log_prior")
     gs = vkey(Poly.atom(("sub", Pk(1), ("const", "'grid_size'"))))
     by_node = {}
     for e in ex.calls("new:TreeNode"):
@@ -1131,12 +1155,7 @@ def rule_N7(ctx):
             if vkey(e.args[0]) != gs:
                 ok, why = False, "a restored node is built with shape %s, not tree_dict['grid_size']" % show(e.args[0])
                 break
-            g = g_and(e.guards)
-            under = make_cond([(g, e.args[1]), (TRUE, sp.result)]) if g != TRUE else e.args[1]
-            from ..termflow import equivalent
-
-            eq, how, wit = equivalent(under, sp.result)
-            if not eq:
+            if not _equal_under(e.guards, e.args[1], sp.result):
                 ok, why = False, "a restored node is filled with %s, not with the tree's prior" % show(e.args[1])
                 break
         ctx.check(ok, "N7", fd.qualname + ": TreeNode site %d gets (grid_size, log_prior)" % i, fd.where(evs[0].node), why, construct=fd.qualname, stmt="TreeNode site %d" % i)
@@ -1200,6 +1219,14 @@ def rule_N7(ctx):
         unrec("only %d data-adding call sites found" % n)
 
 
+def _equal_under(guards, got, want):
+    """`got` equals `want` whenever all `guards` hold (guards are opaque syntax, as everywhere)."""
+    g = g_and(guards)
+    under = make_cond([(g, got), (TRUE, want)]) if g != TRUE else got
+    eq, how, wit = equivalent(under, want)
+    return eq
+
+
 def _names_root(x):
     for n in ast.walk(x):
         if isinstance(n, ast.Attribute) and n.attr in ("root_node_name", "_ROOT_NODE_NAME"):
@@ -1222,4 +1249,92 @@ def run(ctx):
     rule_N7(ctx)
 
 
-SELFTEST = []
+# Self-test catalogue: one textual edit each, applied to a scratch copy (see selftest.py).
+_U = "phyclone/tree/utils.py"
+_M = "phyclone/utils/math.py"
+_N = "phyclone/tree/tree_node.py"
+_T = "phyclone/tree/tree.py"
+_V = "phyclone/tree/visitors.py"
+_D = "phyclone/data/base.py"
+_FFT_TAIL = "    result += child_2_maxes\n\n    result += child_1_maxes\n\n    return result"
+SELFTEST = [
+    # ---- N4 (b) de-normalisation
+    {"name": "N4b-direct-drop-child2-max", "kind": "break", "rule": "N4", "file": _U, "old": "    log_D += child_2_maxes\n\n", "new": ""},
+    {"name": "N4b-fft-same-max-twice", "kind": "break", "rule": "N4", "file": _M, "old": _FFT_TAIL, "new": "    result += child_2_maxes\n\n    result += child_2_maxes\n\n    return result"},
+    # ---- N4 (c) truncation
+    {"name": "N4c-direct-grid-minus-one", "kind": "break", "rule": "N4", "file": _U, "old": "child_1_norm[i, :])[:grid_size]", "new": "child_1_norm[i, :])[:grid_size - 1]"},
+    {"name": "N4c-fft-cut-to-sample-count", "kind": "break", "rule": "N4", "file": _M, "old": "result = result[..., : child_1_norm.shape[-1]]", "new": "result = result[..., : child_1_norm.shape[0]]"},
+    {"name": "N4c-fft-window-shifted", "kind": "break", "rule": "N4", "file": _M, "old": "result = result[..., : child_1_norm.shape[-1]]", "new": "result = result[..., 1 : child_1_norm.shape[-1] + 1]"},
+    # ---- N4 (d) floor before log
+    {"name": "N4d-fft-floor-deleted", "kind": "break", "rule": "N4", "file": _M, "old": "    result = result[..., : child_1_norm.shape[-1]]\n\n    result[result <= 0] = 1e-100\n", "new": "    result = result[..., : child_1_norm.shape[-1]]\n"},
+    {"name": "N4d-direct-strict-mask-keeps-zeros", "kind": "break", "rule": "N4", "file": _U, "old": "log_D[log_D <= 0] = 1e-100", "new": "log_D[log_D < 0] = 1e-100"},
+    {"name": "N4d-direct-floor-after-log", "kind": "break", "rule": "N4", "file": _U, "old": "    log_D[log_D <= 0] = 1e-100\n\n    log_D = np.log(log_D, order=\"C\", dtype=np.float64, out=log_D)\n", "new": "    log_D = np.log(log_D, order=\"C\", dtype=np.float64, out=log_D)\n\n    log_D[log_D <= 0] = 1e-100\n"},
+    {"name": "N4d-fft-floor-is-zero", "kind": "break", "rule": "N4", "file": _M, "old": "    result = result[..., : child_1_norm.shape[-1]]\n\n    result[result <= 0] = 1e-100\n", "new": "    result = result[..., : child_1_norm.shape[-1]]\n\n    result[result <= 0] = 0.0\n"},
+    {"name": "N4d-fft-mask-on-other-array", "kind": "break", "rule": "N4", "file": _M, "old": "    result = result[..., : child_1_norm.shape[-1]]\n\n    result[result <= 0] = 1e-100\n", "new": "    result = result[..., : child_1_norm.shape[-1]]\n\n    child_1_norm[child_1_norm <= 0] = 1e-100\n"},
+    # ---- N4 (a) normalisation
+    {"name": "N4a-direct-wrong-childs-max", "kind": "break", "rule": "N4", "file": _U, "old": "child_1_norm = np.exp(child_1 - child_1_maxes)\n\n    child_2_norm = np.exp(child_2 - child_2_maxes)\n\n    grid_size", "new": "child_1_norm = np.exp(child_1 - child_2_maxes)\n\n    child_2_norm = np.exp(child_2 - child_2_maxes)\n\n    grid_size"},
+    {"name": "N4a-fft-global-max", "kind": "break", "rule": "N4", "file": _M, "old": "    child_2_maxes = np.max(child_2, axis=-1, keepdims=True)\n\n    child_1_norm = np.exp(child_1 - child_1_maxes)\n\n    child_2_norm = np.exp(child_2 - child_2_maxes)\n\n    result = fftconvolve", "new": "    child_2_maxes = np.max(child_2)\n\n    child_1_norm = np.exp(child_1 - child_1_maxes)\n\n    child_2_norm = np.exp(child_2 - child_2_maxes)\n\n    result = fftconvolve"},
+    {"name": "N4a-direct-child-used-twice", "kind": "break", "rule": "N4", "file": _U, "old": "np.convolve(child_2_norm[i, :], child_1_norm[i, :])", "new": "np.convolve(child_1_norm[i, :], child_1_norm[i, :])"},
+    # ---- N4 (e) per-row convolution
+    {"name": "N4e-direct-fixed-row", "kind": "break", "rule": "N4", "file": _U, "old": "np.convolve(child_2_norm[i, :], child_1_norm[i, :])", "new": "np.convolve(child_2_norm[i, :], child_1_norm[0, :])"},
+    {"name": "N4e-direct-last-row-skipped", "kind": "break", "rule": "N4", "file": _U, "old": "[:grid_size] for i in range(num_dims)]", "new": "[:grid_size] for i in range(num_dims - 1)]"},
+    {"name": "N4e-fft-sample-axis", "kind": "break", "rule": "N4", "file": _M, "old": "fftconvolve(child_1_norm, child_2_norm, axes=[-1])", "new": "fftconvolve(child_1_norm, child_2_norm, axes=[0])"},
+    {"name": "N4e-fft-all-axes", "kind": "break", "rule": "N4", "file": _M, "old": "fftconvolve(child_1_norm, child_2_norm, axes=[-1])", "new": "fftconvolve(child_1_norm, child_2_norm)"},
+    # ---- N4 dispatch
+    {"name": "N4-dispatch-reads-sample-count", "kind": "break", "rule": "N4", "file": _U, "old": "    grid_size = child_1.shape[-1]\n    if grid_size < 1000:", "new": "    grid_size = child_1.shape[0]\n    if grid_size < 1000:"},
+    {"name": "N4-dispatch-arms-swapped", "kind": "break", "rule": "N4", "file": _U, "old": "    if grid_size < 1000:\n        res_arr = _np_conv_dims(child_1, child_2)\n    else:\n        res_arr = fft_convolve_two_children(child_1, child_2)", "new": "    if grid_size < 1000:\n        res_arr = fft_convolve_two_children(child_1, child_2)\n    else:\n        res_arr = _np_conv_dims(child_1, child_2)"},
+    {"name": "N4-dispatch-same-child-twice", "kind": "break", "rule": "N4", "file": _U, "old": "res_arr = _np_conv_dims(child_1, child_2)", "new": "res_arr = _np_conv_dims(child_1, child_1)"},
+    # ---- N3 fold
+    {"name": "N3-loop-starts-at-3", "kind": "break", "rule": "N3", "file": _U, "old": "for j in range(2, num_children):", "new": "for j in range(3, num_children):"},
+    {"name": "N3-loop-stops-early", "kind": "break", "rule": "N3", "file": _U, "old": "for j in range(2, num_children):", "new": "for j in range(2, num_children - 1):"},
+    {"name": "N3-index-off-by-one", "kind": "break", "rule": "N3", "file": _U, "old": "_convolve_two_children(child_log_R_values[j], conv_res)", "new": "_convolve_two_children(child_log_R_values[j - 1], conv_res)"},
+    {"name": "N3-accumulator-dropped", "kind": "break", "rule": "N3", "file": _U, "old": "_convolve_two_children(child_log_R_values[j], conv_res)", "new": "_convolve_two_children(child_log_R_values[j], child_log_R_values[0])"},
+    {"name": "N3-running-sum-skipped", "kind": "break", "rule": "N3", "file": _U, "old": "    log_S = _sub_compute_S(log_D)\n\n    return np.ascontiguousarray(log_S)", "new": "    log_S = log_D\n\n    return np.ascontiguousarray(log_S)"},
+    # ---- N2 running sum
+    {"name": "N2-maximum-accumulate", "kind": "break", "rule": "N2", "file": _U, "old": "np.logaddexp.accumulate(log_D[i, :], out=log_S[i, :])", "new": "np.maximum.accumulate(log_D[i, :], out=log_S[i, :])"},
+    {"name": "N2-column-instead-of-row", "kind": "break", "rule": "N2", "file": _U, "old": "np.logaddexp.accumulate(log_D[i, :], out=log_S[i, :])", "new": "np.logaddexp.accumulate(log_D[:, i], out=log_S[:, i])"},
+    {"name": "N2-row-mismatch", "kind": "break", "rule": "N2", "file": _U, "old": "np.logaddexp.accumulate(log_D[i, :], out=log_S[i, :])", "new": "np.logaddexp.accumulate(log_D[i, :], out=log_S[i - 1, :])"},
+    {"name": "N2-first-row-skipped", "kind": "break", "rule": "N2", "file": _U, "old": "    for i in range(num_dims):\n        np.logaddexp", "new": "    for i in range(1, num_dims):\n        np.logaddexp"},
+    {"name": "N2-rows-bounded-by-grid", "kind": "break", "rule": "N2", "file": _U, "old": "    log_S = np.empty_like(log_D)\n    num_dims = log_D.shape[0]", "new": "    log_S = np.empty_like(log_D)\n    num_dims = log_D.shape[1]"},
+    # ---- N1 node combine
+    {"name": "N1-leaf-alias", "kind": "break", "rule": "N1", "file": _N, "old": "            np.copyto(log_r, log_p)\n            return", "new": "            self.log_r = log_p\n            return"},
+    {"name": "N1-own-data-dropped", "kind": "break", "rule": "N1", "file": _N, "old": "np.add(log_p, log_s, out=log_r, order=\"C\")", "new": "np.copyto(log_r, log_s)"},
+    {"name": "N1-written-into-log_p", "kind": "break", "rule": "N1", "file": _N, "old": "np.add(log_p, log_s, out=log_r, order=\"C\")", "new": "np.add(log_p, log_s, out=log_p, order=\"C\")"},
+    {"name": "N1-leaf-not-reset", "kind": "break", "rule": "N1", "file": _N, "old": "            np.copyto(log_r, log_p)\n            return", "new": "            return"},
+    # ---- N5 bottom-up order
+    {"name": "N5-discover-vertex", "kind": "break", "rule": "N5", "file": _V, "old": "    def finish_vertex(self, v, t):\n        self.node_update_fxn(v)", "new": "    def discover_vertex(self, v, t):\n        self.node_update_fxn(v)"},
+    {"name": "N5-path-top-down", "kind": "break", "rule": "N5", "file": _T, "old": "for source in reversed(path):", "new": "for source in path:"},
+    {"name": "N5-path-skips-root", "kind": "break", "rule": "N5", "file": _T, "old": "for source in reversed(path):", "new": "for source in reversed(path[1:]):"},
+    {"name": "N5-path-skips-source", "kind": "break", "rule": "N5", "file": _T, "old": "for source in reversed(path):", "new": "for source in reversed(path[:-1]):"},
+    {"name": "N5-dfs-from-first-node", "kind": "break", "rule": "N5", "file": _T, "old": "        rx.dfs_search(self._graph, [root_idx], vis)\n\n    def _add_node", "new": "        rx.dfs_search(self._graph, [root_idx + 1], vis)\n\n    def _add_node"},
+    # ---- N6 children gathered
+    {"name": "N6-children-log_p", "kind": "break", "rule": "N6", "file": _T, "old": "child_log_r_values = [child.log_r for child in self._graph.successors(node_idx)]", "new": "child_log_r_values = [child.log_p for child in self._graph.successors(node_idx)]"},
+    {"name": "N6-children-filtered", "kind": "break", "rule": "N6", "file": _T, "old": "child_log_r_values = [child.log_r for child in self._graph.successors(node_idx)]", "new": "child_log_r_values = [child.log_r for child in self._graph.successors(node_idx) if child.data_points]"},
+    {"name": "N6-first-child-dropped", "kind": "break", "rule": "N6", "file": _T, "old": "child_log_r_values = [child.log_r for child in self._graph.successors(node_idx)]", "new": "child_log_r_values = [child.log_r for child in self._graph.successors(node_idx)[1:]]"},
+    {"name": "N6-reports-root-log_p", "kind": "break", "rule": "N6", "file": _T, "old": "        return self._graph[root_idx].log_r\n", "new": "        return self._graph[root_idx].log_p\n"},
+    # ---- N7 grid prior
+    {"name": "N7-prior-counts-samples", "kind": "break", "rule": "N7", "file": _T, "old": "        self._log_prior = -np.log(grid_size[1])", "new": "        self._log_prior = -np.log(grid_size[0])"},
+    {"name": "N7-from_dict-prior-counts-samples", "kind": "break", "rule": "N7", "file": _T, "old": "            log_prior = -np.log(grid_size[1])\n        new_graph", "new": "            log_prior = -np.log(grid_size[0])\n        new_graph"},
+    {"name": "N7-node-without-prior", "kind": "break", "rule": "N7", "file": _N, "old": "self.log_p = np.full(grid_size, log_prior, order=\"C\")", "new": "self.log_p = np.zeros(grid_size, order=\"C\")"},
+    {"name": "N7-new-node-prior-zero", "kind": "break", "rule": "N7", "file": _T, "old": "node_obj = TreeNode(self.grid_size, self._log_prior, node)", "new": "node_obj = TreeNode(self.grid_size, 0.0, node)"},
+    {"name": "N7-datapoint-prior-counts-samples", "kind": "break", "rule": "N7", "file": _D, "old": "log_prior = -np.log(value.shape[1])", "new": "log_prior = -np.log(value.shape[0])"},
+    {"name": "N7-data-added-to-root", "kind": "break", "rule": "N7", "file": _T, "old": "        self.add_data_point_to_node(data_point, self._OUTLIER_NODE_NAME)", "new": "        self.add_data_point_to_node(data_point, self._ROOT_NODE_NAME)"},
+    # ---- benign variants
+    {"name": "benign-rename-child_1_norm", "kind": "benign", "edits": [
+        {"file": _U, "old": "    child_1_norm = np.exp(child_1 - child_1_maxes)\n\n    child_2_norm = np.exp(child_2 - child_2_maxes)\n\n    grid_size = child_1.shape[-1]\n\n    arr_list = [np.convolve(child_2_norm[i, :], child_1_norm[i, :])", "new": "    lin_a = np.exp(child_1 - child_1_maxes)\n\n    child_2_norm = np.exp(child_2 - child_2_maxes)\n\n    grid_size = child_1.shape[-1]\n\n    arr_list = [np.convolve(child_2_norm[i, :], lin_a[i, :])"}]},
+    {"name": "benign-both-maxes-in-one-helper", "kind": "benign", "file": _M, "old": "def fft_convolve_two_children(child_1, child_2):\n    \"\"\"FFT convolution\"\"\"\n    child_1_maxes = np.max(child_1, axis=-1, keepdims=True)\n\n    child_2_maxes = np.max(child_2, axis=-1, keepdims=True)\n", "new": "def _row_maxes(a, b):\n    return np.max(a, axis=-1, keepdims=True), np.max(b, axis=-1, keepdims=True)\n\n\ndef fft_convolve_two_children(child_1, child_2):\n    \"\"\"FFT convolution\"\"\"\n    child_1_maxes, child_2_maxes = _row_maxes(child_1, child_2)\n"},
+    {"name": "benign-copyto-as-slice-assignment", "kind": "benign", "file": _N, "old": "            np.copyto(log_r, log_p)\n            return", "new": "            log_r[:] = log_p\n            return"},
+    {"name": "benign-add-as-slice-assignment", "kind": "benign", "file": _N, "old": "np.add(log_p, log_s, out=log_r, order=\"C\")", "new": "self.log_r[...] = log_s + log_p"},
+    {"name": "benign-fft-denormalise-in-one-statement", "kind": "benign", "file": _M, "old": "    result = np.log(result, order=\"C\", dtype=np.float64)\n\n" + _FFT_TAIL, "new": "    out = child_1_maxes + np.log(result, order=\"C\", dtype=np.float64) + child_2_maxes\n\n    return out"},
+    {"name": "benign-floor-before-truncation", "kind": "benign", "file": _M, "old": "    result = result[..., : child_1_norm.shape[-1]]\n\n    result[result <= 0] = 1e-100\n", "new": "    result[result <= 0] = 1e-100\n\n    result = result[..., : child_2.shape[1]]\n"},
+    {"name": "benign-floor-by-np-maximum", "kind": "benign", "file": _M, "old": "    result[result <= 0] = 1e-100\n\n    result = np.log(result, order=\"C\", dtype=np.float64)", "new": "    result = np.log(np.maximum(result, 1e-100), order=\"C\", dtype=np.float64)"},
+    {"name": "benign-dispatch-test-inverted", "kind": "benign", "file": _U, "old": "    if grid_size < 1000:\n        res_arr = _np_conv_dims(child_1, child_2)\n    else:\n        res_arr = fft_convolve_two_children(child_1, child_2)", "new": "    if grid_size >= 1000:\n        res_arr = fft_convolve_two_children(child_2, child_1)\n    else:\n        res_arr = _np_conv_dims(child_1, child_2)"},
+    {"name": "benign-fold-from-first-child", "kind": "benign", "file": _U, "old": "    conv_res = _convolve_two_children(child_log_R_values[0], child_log_R_values[1])\n    for j in range(2, num_children):", "new": "    conv_res = child_log_R_values[0]\n    for j in range(1, num_children):"},
+    {"name": "benign-running-sum-row-index-short", "kind": "benign", "file": _U, "old": "np.logaddexp.accumulate(log_D[i, :], out=log_S[i, :])", "new": "np.logaddexp.accumulate(log_D[i], out=log_S[i])\n        print(i)"},
+    {"name": "benign-visitor-inline-and-attr-renamed", "kind": "benign", "edits": [
+        {"file": _T, "old": "        vis = PostOrderNodeUpdater(self._update_node)\n        root_idx = self._node_indices[self._ROOT_NODE_NAME]\n        rx.dfs_search(self._graph, [root_idx], vis)", "new": "        start = self._node_indices[self.root_node_name]\n        rx.dfs_search(self._graph, [start], PostOrderNodeUpdater(self._update_node))"},
+        {"file": _V, "old": "    __slots__ = \"node_update_fxn\"\n\n    def __init__(self, node_update_fxn):\n        self.node_update_fxn = node_update_fxn\n\n    def finish_vertex(self, v, t):\n        self.node_update_fxn(v)", "new": "    __slots__ = \"fxn\"\n\n    def __init__(self, fxn):\n        self.fxn = fxn\n\n    def finish_vertex(self, vertex, t):\n        self.fxn(vertex)"}]},
+    {"name": "benign-path-reversed-by-slice", "kind": "benign", "file": _T, "old": "        for source in reversed(path):\n            self._update_node(source)", "new": "        for idx in path[::-1]:\n            self._update_node(idx)"},
+    {"name": "benign-children-gathered-by-loop", "kind": "benign", "file": _T, "old": "        child_log_r_values = [child.log_r for child in self._graph.successors(node_idx)]\n", "new": "        kids = self._graph.successors(node_idx)\n        child_log_r_values = [k.log_r for k in kids]\n"},
+    {"name": "benign-prior-as-log-of-reciprocal", "kind": "benign", "file": _T, "old": "        self._log_prior = -np.log(grid_size[1])", "new": "        num_grid = grid_size[1]\n        self._log_prior = np.log(1 / num_grid)"},
+]
